@@ -175,7 +175,61 @@ class FactoryRun:
         if t == "Sink":
             from factorysimpy.nodes.sink import Sink
             return Sink(env, n["id"], node_setup_time=n.get("setup", 0))
+        if t == "Router":
+            return self.make_router(n)
         raise HarnessError("node type %r" % t)
+
+    def make_router(self, n):
+        """harness-owned node closing a circular line: injects a fixed population of pallets and items, afterwards sends
+        every pallet it receives back to its first out-edge and every item to its second one (after an optional wait).
+        It uses the documented edge API only (reserve_put / put / reserve_get / get) like any library node."""
+        from factorysimpy.nodes.node import Node
+        from factorysimpy.helper.item import Item
+        from factorysimpy.helper.pallet import Pallet
+        env = self.env
+
+        class Router(Node):
+            def __init__(self_, env, id):
+                super().__init__(env, id)
+                self_.state = None
+                self_.stats = {"num_item_discarded": 0}
+
+            def send(self_, edge, obj):
+                ev = edge.reserve_put()
+                yield ev
+                obj.timestamp_node_exit = env.now
+                edge.put(ev, obj)
+
+            def feed(self_):
+                for k in range(n.get("pallets", 1)):
+                    yield from self_.send(self_.out_edges[0], Pallet("LP%d" % k))
+                    if n.get("feed_gap"):
+                        yield env.timeout(n["feed_gap"])
+                for k in range(n.get("items", 2)):
+                    it = Item("LX%d" % k)
+                    it.length = 1
+                    yield from self_.send(self_.out_edges[1], it)
+                    if n.get("feed_gap"):
+                        yield env.timeout(n["feed_gap"])
+
+            def route(self_, edge, waits):
+                i = 0
+                while True:
+                    ev = edge.reserve_get()
+                    yield ev
+                    obj = edge.get(ev)
+                    w = waits[i % len(waits)] if waits else 0
+                    i += 1
+                    if w:
+                        yield env.timeout(w)
+                    dst = self_.out_edges[0] if getattr(obj, "flow_item_type", "") == "Pallet" else self_.out_edges[1]
+                    yield from self_.send(dst, obj)
+
+            def start_processes(self_):
+                env.process(self_.feed())
+                for e in (self_.in_edges or []):
+                    env.process(self_.route(e, n.get("waits") or [0]))
+        return Router(env, n["id"])
 
     def make_edge(self, e):
         env = self.env
@@ -221,7 +275,18 @@ class FactoryRun:
             except Exception:
                 pass
             r = orig()
-            rec = (run.env.now, run.k, eid, r, room, run.env.active_process)
+            # ledger-room of every Buffer/Fleet out-edge of the probing node at this very moment (FIRST_AVAILABLE may
+            # drop only if none of them has room, whether it asked them or not)
+            rooms_all = {}
+            try:
+                src = run.edge_spec[eid]["src"]
+                for e2 in run.out_edge_ids(src):
+                    if run.edge_spec[e2]["kind"] in ("Buffer", "Fleet"):
+                        g2 = sum(1 for t in run.toks.values() if t.edge == e2 and t.side == "p" and t.state == "granted")
+                        rooms_all[e2] = run.edge_capacity(e2) - len(run.edge_items(e2)) - g2
+            except Exception:
+                pass
+            rec = (run.env.now, run.k, eid, r, room, run.env.active_process, rooms_all)
             run.probes.append(rec)
             for o in run.oracles:
                 if hasattr(o, "on_probe"):
@@ -315,6 +380,9 @@ class FactoryRun:
             self.edges[eid].connect(self.nodes[es["src"]], self.nodes[es["dst"]])
         for eid, edge in self.edges.items():
             self.wrap_store(eid, edge)
+        for nid, node in self.nodes.items():
+            if self.node_spec[nid]["type"] == "Router":
+                node.start_processes()
 
     # ------------------------------------------------------------------ public state helpers
     def edge_items(self, eid):
